@@ -64,7 +64,15 @@ Definition sample (s : st) : st :=
 Definition over (lim : option N) (x : N) : bool :=
   match lim with None => false | Some l => l <? x end.
 
+(* Code variants: the current code and the pinned code it was repaired from.
+     drain_all  = true : Channel::unbusy keeps dequeuing while the channel stays idle (fix 3b41f69);
+                  false: it dequeued at most one message.
+     exit_first = true : send_message schedules the MessageExitingConnection before the
+                         ChannelUnbusyNotif; false: after it. *)
+Record variant := { drain_all : bool; exit_first : bool }.
+
 Section Loop.
+Variable vr : variant.
 Variable tx : N -> N.
 Variable mt : metrics.
 Variable bursts : list (N * list (N * N)).   (* (time, [(msg id, length)]) *)
@@ -98,10 +106,12 @@ Definition send_message (s : st) (m len : N) (fromq : bool) : st :=
     let b := tx len in
     let t := now s in
     let s1 := set_orc s o' in
-    let s2 := if b =? 0 then s1
-              else set_q (set_ch s1 (set_busy_until c (t + b))) (qadd (q s1) (t + b) EUnbusy) in
-    let s3 := set_q s2 (qadd (q s2) (t + (m_lat mt + b + j)) (EExit m)) in
-    emit s3 (IStart m len t j fromq).
+    let add_unbusy (s' : st) :=
+      if b =? 0 then s'
+      else set_q (set_ch s' (set_busy_until (ch s') (t + b))) (qadd (q s') (t + b) EUnbusy) in
+    let add_exit (s' : st) := set_q s' (qadd (q s') (t + (m_lat mt + b + j)) (EExit m)) in
+    let s2 := if exit_first vr then add_unbusy (add_exit s1) else add_exit (add_unbusy s1) in
+    emit s2 (IStart m len t j fromq).
 
 (* the `while !self.is_busy() { dequeue; send_message }` of Channel::unbusy;
    every iteration pops one packet, so the queue length is enough fuel *)
@@ -123,7 +133,7 @@ Fixpoint drain (k : nat) (s : st) : st :=
 Definition unbusy (s : st) : st :=
   let c := {| busy := false; finish := 0; buffer := buffer (ch s); acc := acc (ch s) |} in
   let s1 := emit (set_ch s c) (IUnbusy (now s)) in
-  drain (length (buffer c)) s1.
+  drain (if drain_all vr then length (buffer c) else 1%nat) s1.
 
 (* sender module: handle_message(wake-up k) sends the k-th burst; the channel
    is sampled on entry and after every send *)
@@ -188,9 +198,12 @@ Fixpoint group (offs : list (N * N)) (m : N) : list (N * list (N * N)) :=
 (* every offer creates at most an Unbusy and an Exit event, every burst one wake-up *)
 Definition fuel_for (offs : list (N * N)) : nat := 3 * length offs + 1.
 
-Definition run_model (tx : N -> N) (mt : metrics) (oracle : list N) (offs : list (N * N)) : st :=
+Definition run_model (vr : variant) (tx : N -> N) (mt : metrics) (oracle : list N) (offs : list (N * N)) : st :=
   let bs := group offs 0 in
-  sample (steps tx mt bs (fuel_for offs) (init bs oracle)).
+  sample (steps vr tx mt bs (fuel_for offs) (init bs oracle)).
+
+(* the code as it is in /repo now *)
+Definition current : variant := {| drain_all := true; exit_first := true |}.
 
 Fixpoint tx_tbl (tbl : list (N * N)) (len : N) : N :=
   match tbl with
@@ -223,7 +236,7 @@ Definition hdr_len : N := 64.
 
 (* script: seed brk br lat jit pol lim  ntx (len tx)*  norc j*  (t len)*
    (seed, brk, br only concern the implementation: rng seed and bitrate) *)
-Definition run (input : list N) : list N :=
+Definition run_with (vr : variant) (input : list N) : list N :=
   match input with
   | _ :: _ :: _ :: lat :: jit :: pol :: lim :: r =>
       let '(tb, r1) := take_lp r in
@@ -231,8 +244,10 @@ Definition run (input : list N) : list N :=
       let tbl := pairs tb in
       let offs := map (fun o => (fst o, N.max hdr_len (snd o))) (pairs r2) in
       let mt := {| m_lat := lat; m_jit := jit; m_pol := dec_policy pol lim |} in
-      let s := run_model (tx_tbl tbl) mt oracle offs in
+      let s := run_model vr (tx_tbl tbl) mt oracle offs in
       [7; N.of_nat (length tbl)] ++ flat_map (fun p => [fst p; snd p]) tbl
         ++ flat_map enc_item (rev (log s))
   | _ => [8]
   end.
+
+Definition run : list N -> list N := run_with current.
